@@ -409,7 +409,8 @@ EbErrorType dec_system_resource_init(EbDecHandle *dec_handle_ptr, TilesInfo *til
             dec_handle_ptr->thread_ctxt_pa[i].dec_mod_ctxt = dec_mod_ctxt_arr[i];
         }
     }
-    free(dec_mod_ctxt_arr);
+    // dec_mod_ctxt_arr was allocated with EB_MALLOC_DEC: the memory map owns it and frees it at
+    // re-allocation / deinit time; freeing it here as well made teardown free it twice
     return return_error;
 }
 
